@@ -1,7 +1,12 @@
 """C16 failing-input search on the real TriangularMesh: closed polyhedra (boxes, convex hulls, prisms, an
 L-shaped non-convex union) under random face permutations, vertex renumberings and flipped subsets of
 faces: status flags, outward orientation after reorientation, H outside invariant; derived meshes
-(face deleted, two disjoint parts, two interpenetrating parts) must be flagged."""
+(face deleted, two disjoint parts, two interpenetrating parts) must be flagged.  Since the repair of check_selfintersecting
+(zero signed volume fits both signs, corner mask, r_factor 2, lengths in units of the mesh size) the bodies it used to miss are
+asserted on every run — edges crossing edges (Stella octangula, cube + copy shifted by half the space diagonal), facet pairs with
+far-apart centroids (two spikes, two needles), a spike through a box face — each at sizes 1e-9 … 1e9 and moved away from the origin
+by 1e7 sizes; and valid closed meshes (hulls, boxes with subdivided faces, prisms, tetrahedra; rotated) at the same sizes and
+offsets must not be flagged."""
 import warnings
 
 import numpy as np
@@ -220,4 +225,48 @@ def sweep(ctx, n):
                 kinds["spike"] = kinds.get("spike", 0) + 1
                 if m.status_selfintersecting is not True:
                     bad(f"status:spike:{order}:selfintersection-not-detected", "a spike piercing a box face is not reported as self-intersection", {"vertices": vv.tolist(), "faces": ff.tolist()})
+        # ---- the self-intersecting bodies the code missed before its repair, and valid bodies it flagged: every size, far from the origin
+        from oracles.known import C16_MESHES
+        from scipy.spatial.transform import Rotation
+
+        def verdict(v, f):
+            m = magpy.magnet.TriangularMesh(vertices=v, faces=f, polarization=(0, 0, 1), check_open="ignore", check_disconnected="ignore", check_selfintersecting="ignore", reorient_faces="ignore")
+            m.check_selfintersecting(mode="ignore")
+            return bool(m.status_selfintersecting)
+
+        scales = (1e-9, 1e-6, 1e-3, 1.0, 1e3, 1e6, 1e9)
+        nps = np.random.default_rng(rng.randrange(2**31))
+        bodies = {k: (np.array(C16_MESHES[k][0], float), np.array(C16_MESHES[k][1])) for k in ("stella-octangula", "cube-half-diagonal", "two-spikes", "spike-box-micro", "two-needles")}
+        for name, (v, f) in bodies.items():
+            generic = name in ("two-spikes", "spike-box-micro", "two-needles")  # no exact edge-through-edge incidence: any pose will do
+            for sc in scales:
+                for off in (0.0, 1e7):
+                    vv = Rotation.random(random_state=int(nps.integers(2**31))).apply(v) if generic and off == 0.0 and sc != 1.0 else v
+                    vv = (vv + off * np.array([1.0, -2.0, 3.0])) * sc
+                    ff = f[nps.permutation(len(f))]
+                    done += 1
+                    kinds[name] = kinds.get(name, 0) + 1
+                    if not verdict(vv, ff):
+                        bad(f"status:{name}:selfintersection-not-detected", f"self-intersecting body not reported at size factor {sc:g}, offset {off:g} sizes", {"vertices": vv.tolist(), "faces": ff.tolist()})
+        for trial in range(max(3, n // 6)):
+            from corr.selfint_family import gridbox
+            kind = ["hull", "gridbox", "prism", "tetra", "box"][trial % 5]
+            if kind == "hull":
+                v, f = hull(nps, rng.choice([8, 12, 30]))
+            elif kind == "gridbox":
+                v, f = gridbox(rng.choice([2, 2, 3]), nps.uniform(0.5, 2, 3))
+            elif kind == "prism":
+                v, f = prism(nps, rng.choice([3, 6, 16]))
+            elif kind == "tetra":
+                v, f = nps.normal(size=(4, 3)), np.array([[0, 2, 1], [0, 1, 3], [1, 2, 3], [0, 3, 2]])
+            else:
+                v, f = box(nps.uniform(0.5, 2, 3))
+            v = Rotation.random(random_state=int(nps.integers(2**31))).apply(v)
+            for sc in scales:
+                for off in (0.0, 1e7):
+                    done += 1
+                    kinds["valid-" + kind] = kinds.get("valid-" + kind, 0) + 1
+                    vv = (v + off * np.array([1.0, -2.0, 3.0])) * sc
+                    if verdict(vv, f):
+                        bad(f"status:{kind}-scaled:valid-mesh-flagged-selfintersecting", f"valid closed mesh reported self-intersecting at size factor {sc:g}, offset {off:g} sizes", {"vertices": vv.tolist(), "faces": f.tolist()})
     return fails, {"c16_meshes": done, "c16_kinds": kinds}
